@@ -213,6 +213,8 @@ def journal_summary(J):
             out.append([k, rec[1], rec[2], summ(rec[3])])
         elif k == "MU":
             out.append([k, rec[1], summ(rec[2]), summ(rec[3])])
+        elif k == "EU":
+            out.append([k, rec[1], getattr(rec[2][0], "__qualname__", "?"), [summ(x) for x in rec[2][1]], {n: summ(x) for n, x in rec[2][2].items()}])
         elif k == "RND":
             out.append([k, rec[1], repr(rec[2])])
         else:
@@ -404,6 +406,11 @@ def meta_hooks_explained(journal, lp):
                 return True
         elif k == "B":
             if type(rec[3]) is TW.MI or _meta_nested(rec[3]):
+                return True
+        elif k == "EU":
+            # arguments of a generator / coroutine into which an exception was thrown before it started
+            vals = list(rec[2][1]) + list(rec[2][2].values())
+            if any(_meta_nested(x) for x in vals) or (rec[2][1] and type(rec[2][1][0]) is TW.MI) or (not rec[2][1] and any(type(x) is TW.MI for x in vals)):
                 return True
         elif k == "MU":
             # the container as it was before an in-place mutation (what the tracer saw at entry)
